@@ -178,7 +178,7 @@ impl Driver {
         }
         let mut mid = mid;
         // Byzantine sender / corruption in flight: replace by a forged message
-        if Some(from) == self.byz || rate(w, "corrupt") > 0 || rate(w, "restamp") > 0 || rate(w, "script_mut") > 0 || rate(w, "equivocate") > 0 {
+        if Some(from) == self.byz || rate(w, "corrupt") > 0 || rate(w, "restamp") > 0 || rate(w, "script_mut") > 0 || rate(w, "equivocate") > 0 || rate(w, "script_undef") > 0 {
             if let Some(ops) = crate::profiles::draw_forge(w, rng, mid, from, self.byz) {
                 let e = self.eid();
                 let by = if Some(from) == self.byz {
